@@ -490,6 +490,9 @@ def check_frame_size(ctx, rep, rule):
             continue
         pushes = [c for c in p.calls if c[1] == 'alloc::vec::Vec::<T, A>::push']
         inc = [w for w in p.writes if w[3]['place']['proj'] and 'max_size' in place_fields(w[3]['place'])]
+        r0 = simp(p.env.get('_0'))
+        if r0 and ((r0[0] == 'agg' and r0[2] in ('None', 'Err')) or r0[0] == 'errof') and not pushes:
+            continue        # the name was refused (table full): nothing defined, nothing to count
         okinc = len(inc) == 1 and (('AddWithOverflow' in show(inc[0][2])) or is_binop(inc[0][2], 'Add'))
         rep.ob(len(pushes) == 1 and okinc, rule, dfn.path, 'define grows max_size', 'every defined name increments the frame size (max_size): %s' % [show(w[2]) for w in inc], dfn.loc())
     decs = []
